@@ -1,6 +1,7 @@
 package codec
 
 import (
+	"bytes"
 	"encoding/binary"
 	"fmt"
 	"io"
@@ -58,12 +59,16 @@ func (cc *SMPPCodec) DecodeBlocked(c ConnReader) ([]byte, error) {
 		return nil, ErrInvalidPacketLength
 	}
 
-	left := make([]byte, totalLen)
-	_, err = io.ReadFull(c, left[smpp.MinSMPPHeaderLen:])
+	// the body is read as it arrives: the declared length is untrusted and must not size an allocation
+	left := bytes.NewBuffer(make([]byte, 0, initialFrameCapacity(totalLen)))
+	left.Write(totalLenBytes)
+	n, err := io.CopyN(left, c, int64(totalLen-smpp.MinSMPPHeaderLen))
 	if err != nil {
+		if err == io.EOF && n > 0 {
+			err = io.ErrUnexpectedEOF
+		}
 		return nil, err
 	}
-	copy(left[:smpp.MinSMPPHeaderLen], totalLenBytes)
 
-	return left, nil
+	return left.Bytes(), nil
 }
